@@ -80,7 +80,7 @@ T = [
     ("minmax_chains keeps the rule when a group variable is not bound by the moved literals", "C04", ["minmax_chains"], "{ sel(P,V) } :- skill(P,V).\nperson(1).\nskill(1,2).\nskill(1,4).\nres(P,M) :- person(P); M = #max { V: sel(P,V) }; ok(P,AUX): cand(V).\n", [["cand", 1], ["ok", 2]], [["res", 2], ["sel", 2]], [[]], BIJ, ["equiv", "c04"], {}),
     ("sum_chains leaves atoms alone whose group argument contains an anonymous variable inside a term", "C04", ["sum_chains"], "1 >= { shift(D,L): len(L) } :- day(D).\n:~ shift((_+0),L); day(D). [L@0,D]\n", [["day", 1], ["len", 1]], [["shift", 2]], [["day(1)", "len(2)"]], {"kind": "set", "voc": "out", "cost": True}, ["equiv", "c04"], {}),
     ("minmax_chains requires the moved literals themselves to bind the group variables", "C04", ["minmax_chains"], "{ sel(P,V) } :- skill(P,V).\nperson(1).\nskill(1,2).\nskill(1,4).\nres(P,M) :- person(P); M = #max { V: sel(P,V) }; ok(V,X0): cand(X0).\n", [["cand", 1], ["ok", 2]], [["res", 2], ["sel", 2]], [[]], BIJ, ["equiv", "c04"], {}),
-    ("math leaves comparisons and aggregate guards with an anonymous variable alone", "C14", ["math"], "{ perm(J,K) } :- dp(J,K).\n:- X = #count { J: perm(J,_) }; _ = #count { J: job(J) }; not Y != X.\n", [["dp", 2], ["job", 1]], [["perm", 2]], [["job(1)", "dp(1,3)", "dp(5,-1)"]], BIJ, ["equiv"], {}),
+    ("math leaves comparisons and aggregate guards with an anonymous variable alone", "C14", ["math"], "{ perm(J,K) } :- dp(J,K).\n:- X = #count { J: perm(J,_) }; _ = #count { J: job(J) }; not _ != X.\n", [["dp", 2], ["job", 1]], [["perm", 2]], [["job(1)", "dp(1,3)", "dp(5,-1)"]], BIJ, ["equiv"], {}),
     ("no domain for a head element whose variable is also a local variable of a body aggregate", "C20", ["symmetry", "minmax_chains", "sum_chains"], "1 >= { p(G,V): d(W,V) } :- g(G); 1 <= #count { W: d(G,W) }.\n:~ p(G,V). [V@1,G]\n", [["d", 2], ["g", 1]], [["p", 2]], [["d(5,5)", "d(2,2)", "d(5,1)", "g(1)", "g(-1)", "g(5)", "g(2)"]], None, ["c20"], {}),
 ]
 
